@@ -72,6 +72,8 @@ impl Monitor for M {
                 .batch(4)
                 .exhaustive("\\advance/\\multiply/\\divide on count, dimen, skip for all 30x30 operand pairs of the boundary set {0, +-1, +-2, +-3, +-(2^15-1..2^15+1), +-(2^16-1..2^16+1), +-(2^30-1..2^30+1), +-(2^31-2), +-(2^31-1), -2^31}"),
             Phase::new("vm_random", tier.pick(15_000, 400_000)).batch(16),
+            // nearly valid constants that the big model declares out of its domain
+            Phase::new("radix_fraction", tier.pick(4_000, 100_000)).batch(32),
         ]
     }
 
@@ -154,6 +156,7 @@ impl Monitor for M {
             "vm_pairs" => pairs_case(idx, rng, obs),
             "vm_random" => random_case(rng, obs),
             "known" => known_case(idx, obs),
+            "radix_fraction" => radix_fraction_case(rng, obs),
             _ => obs.inconclusive(format!("unknown phase {phase}")),
         }
     }
@@ -726,4 +729,68 @@ fn decimals_in(text: &str) -> Vec<String> {
         i += 1;
     }
     out
+}
+
+
+// ------------------------------------------------------------------------------------------
+// radix_fraction: an octal / hexadecimal constant directly followed by a point or comma and digits
+// ------------------------------------------------------------------------------------------
+
+/// TeX §448 scans a fraction only `if (radix=10) and (cur_tok=point_token)`. After `"A` or `'17`
+/// the number therefore ENDS in front of the point; no unit follows, so §459 reports "Illegal unit
+/// of measure (pt inserted)", the value is the integer in pt, and `.5pt` stays in the input and is
+/// typeset. Own tiny oracle (the statement is outside the domain of the token-level model).
+fn radix_fraction_case(rng: &mut Rng, obs: &mut Obs) {
+    let hex = rng.coin();
+    let n: i64 = rng.range_i64(0, 4000);
+    let neg = rng.chance(1, 3);
+    let sep = if rng.chance(1, 4) { ',' } else { '.' };
+    let frac: String = (0..rng.range_usize(1, 6)).map(|_| (b'0' + rng.below(10) as u8) as char).collect();
+    let unit = *rng.pick(&["pt", "sp", "in", "fil", "em"]);
+    let constant = if hex { format!("\"{n:X}") } else { format!("'{n:o}") };
+    let sign = if neg { "-" } else { "" };
+    let as_stretch = rng.chance(1, 3);
+    let reg = 1 + rng.below(3) as usize;
+    let src = if as_stretch {
+        format!("\\nonstopmode\\skip{reg}=3pt plus {sign}{constant}{sep}{frac}{unit}\\relax")
+    } else {
+        format!("\\nonstopmode\\dimen{reg}={sign}{constant}{sep}{frac}{unit}\\relax")
+    };
+    let expected_sp = (if neg { -n } else { n }) * 65536;
+    let leftover = format!("{sep}{frac}{unit}");
+    let opts = vstate::VmOptions::default();
+    let src2 = src.clone();
+    let r = catch(move || {
+        let (o, out, vm) = vstate::run_program(&opts, &src2);
+        let d = vm.state.registers_scaled.values()[reg].0 as i64;
+        let g = vm.state.registers_glue.values()[reg];
+        (o, out, d, (g.width.0 as i64, g.stretch.0 as i64, format!("{:?}", g.stretch_order)), vm.state.mon.recovered.get())
+    });
+    obs.count("radix_fraction:statements");
+    obs.count(if hex { "radix_fraction:hex" } else { "radix_fraction:octal" });
+    match r {
+        Err(p) => obs.repo_panic(&p, json!({"source": src})),
+        Ok((o, out, d, g, recovered)) => {
+            let value_ok = if as_stretch {
+                g.0 == 3 * 65536 && g.1 == expected_sp && g.2 == "Normal"
+            } else {
+                d == expected_sp
+            };
+            let out_ok = out.trim_end() == leftover;
+            if !o.is_ok() || !value_ok || !out_ok || recovered != 1 {
+                obs.violation(
+                    "radix-constant-followed-by-fraction",
+                    json!({"source": src, "outcome": format!("{o:?}"), "expected_value_sp": expected_sp,
+                           "dimen_sp": d, "skip": format!("{g:?}"), "typeset": out, "expected_typeset": leftover,
+                           "recovered_errors": recovered,
+                           "rule": "TeX §448: a fraction is scanned only after a DECIMAL constant; §459: missing unit => error, pt inserted"}),
+                );
+            } else {
+                obs.nontrivial(&src);
+                if obs.wants_sample() {
+                    obs.sample(json!({"source": src, "value_sp": expected_sp, "typeset": out, "recovered_errors": recovered}));
+                }
+            }
+        }
+    }
 }
